@@ -9,8 +9,8 @@ namespace Stack
 set_option linter.unusedSimpArgs false
 
 /-- the discovery store together with its pending expiry handles: scheduled timers and fired-but-not-yet-run ones -/
-def svcT (s : Stack) : TStore SvcKey × List (Timer Cb) × List (RItem Cb) :=
-  (s.found, s.loop.timers.filter (fun t => isSvcExpiry t.cb), s.loop.ready.filter (fun r => isSvcExpiry r.cb))
+def svcT (s : Stack) : TStore SvcKey × List (Timer Cb) × List (RItem Cb) × List (Addr × SvcKey × Nat × Nat) :=
+  (s.found, s.loop.timers.filter (fun t => isSvcExpiry t.cb), s.loop.ready.filter (fun r => isSvcExpiry r.cb), s.refreshLog)
 
 @[simp] theorem svcT_with_watched (s : Stack) (x : List (Service × List Listener)) : svcT { s with watched := x } = svcT s := rfl
 @[simp] theorem svcT_with_watchAll (s : Stack) (x : List LId) : svcT { s with watchAll := x } = svcT s := rfl
@@ -64,7 +64,7 @@ theorem svcT_cancelTimer_other (s : Stack) (own : Cb → Bool) (t : Option Nat) 
   | none => rfl
   | some q =>
     simp only [svcT, cancelTimer, Loop.cancelOpt, Loop.cancel, List.filter_filter]
-    refine Prod.ext rfl (Prod.ext ?_ ?_)
+    refine Prod.ext rfl (Prod.ext ?_ (Prod.ext ?_ rfl))
     · apply List.filter_congr; intro x _
       cases h1 : isSvcExpiry x.cb
       · simp
